@@ -25,7 +25,7 @@ impl Check for C01 {
          commodity next to the rest, an omitted amount (or two), or left as generated. Oracle: reference book-keeping \
          (harness/src/model/book.rs) classifies must-accept / must-reject / may (implied exchange) / unspecified; observed via \
          report::process on the in-memory file system: accept vs reject, the transaction named by the diagnostic, stored posting \
-         amounts. Non-trivial = the final transaction has a specified outcome; distinct by ledger text."
+         amounts. Non-trivial = the final transaction has a specified outcome; distinct by ledger text. A quarter of the cases are written through declared account / commodity aliases and one in six is cut at entry boundaries into a tree of included files on the in-memory file system (diagnostics must then name the posting's own file and line)."
             .to_string()
     }
     fn assumptions(&self) -> Vec<String> {
